@@ -566,6 +566,65 @@ def rule_j(model, rep):
     rep.minimum(R, 4)
 
 
+def _eval_cmp(e, env):
+    """evaluate an expression made only of comparisons / and / or / not over names and integer constants (ordering abstraction)"""
+    import operator as op
+    OPS = {ast.Lt: op.lt, ast.LtE: op.le, ast.Gt: op.gt, ast.GtE: op.ge, ast.Eq: op.eq, ast.NotEq: op.ne}
+    if isinstance(e, ast.BoolOp):
+        vals = [_eval_cmp(v, env) for v in e.values]
+        return all(vals) if isinstance(e.op, ast.And) else any(vals)
+    if isinstance(e, ast.UnaryOp) and isinstance(e.op, ast.Not):
+        return not _eval_cmp(e.operand, env)
+    if isinstance(e, ast.Compare):
+        left = _eval_cmp(e.left, env)
+        for o, c in zip(e.ops, e.comparators):
+            right = _eval_cmp(c, env)
+            if type(o) not in OPS:
+                raise ValueError(ast.unparse(e))
+            if not OPS[type(o)](left, right):
+                return False
+            left = right
+        return True
+    if isinstance(e, ast.Name) and e.id in env:
+        return env[e.id]
+    if isinstance(e, ast.Constant) and isinstance(e.value, int):
+        return e.value
+    raise ValueError(ast.unparse(e))
+
+
+def rule_k(model, rep, table):
+    """`for every cost`: the libpass sha-crypt hashers accept exactly the cost window of the format (what passlib accepts): both bounds inclusive"""
+    R = "C20.k-cost-window"
+    V = "libpass._utils.validation"
+    fn = model.func(V, "validate_rounds")
+    ifs = [n for n in fn.body if isinstance(n, ast.If) and any(isinstance(x, ast.Raise) for x in ast.walk(n))]
+    names = [a.arg for a in fn.args.args]
+    if len(ifs) != 1 or names[:3] != ["rounds", "min", "max"]:
+        rep.undecided(R, site(V, "validate_rounds"), f"validator shape not recognised (params {names}, {len(ifs)} raising tests)")
+    else:
+        want = {9: True, 10: False, 15: False, 20: False, 21: True}     # rejected?  for min=10, max=20
+        try:
+            got = {r: bool(_eval_cmp(ifs[0].test, {"rounds": r, "min": 10, "max": 20})) for r in want}
+        except ValueError as e:
+            got = None
+            rep.undecided(R, site(V, "validate_rounds"), f"test is not a pure comparison: {e}")
+        if got is not None:
+            wrong = sorted(r for r in want if got[r] != want[r])
+            rep.check(not wrong, R, site(V, "validate_rounds"), f"`{ast.unparse(ifs[0].test)}` with min=10, max=20 decides {['min-1', 'min', 'mid', 'max', 'max+1'][[9, 10, 15, 20, 21].index(wrong[0])] if wrong else 'all five orderings'} {'wrongly' if wrong else 'correctly'}",
+                      "the validator refuses exactly the costs below min or above max (both bounds are valid costs)",
+                      witness="SHA256Hasher(rounds=1000) raises ValueError although 1000 is the lowest valid sha-crypt cost (passlib.hash.sha256_crypt accepts it)")
+    init = model.func(LS, "_ShaHasher.__init__")
+    calls = [n for n in walk_no_nested(init) if isinstance(n, ast.Call) and ast.unparse(n.func) == "validate_rounds"]
+    h = table.get("sha256_crypt")
+    lo, hi = table.const(h, "min_rounds"), table.const(h, "max_rounds")
+    unit = model.unit(LS)
+    got = [model.fold(unit, a) for a in calls[0].args[1:3]] if calls else None
+    rep.check(bool(calls) and ast.unparse(calls[0].args[0]) in ("self._rounds", "rounds") and got == [lo, hi], R, site(LS, "_ShaHasher.__init__"), f"validate_rounds(..., {got}) vs passlib [{lo}, {hi}]",
+              "the libpass sha-crypt constructor validates its cost against the window passlib's handlers declare",
+              witness="a cost passlib accepts cannot be configured in libpass (or one it refuses can): hashes of that cost cannot be produced or are refused by the other API")
+    rep.minimum(R, 2)
+
+
 # ----------------------------------------------------------------------------- driver
 def run(model, rep):
     rep.explanation = __doc__
@@ -582,5 +641,6 @@ def run(model, rep):
     rule_f(model, rep)
     rule_i(model, rep)
     rule_j(model, rep)
+    rule_k(model, rep, table)
     c04.rule_f(model, Renamed(rep, {"C04.f": "C20.g-libpass-context"}))
     c12.rule_copies(model, Renamed(rep, {"C12.g": "C20.h-libpass-copies"}))
